@@ -20,7 +20,7 @@ RULE = (
     "leader and volume-directory truncation at every record boundary +-1 and every 64th byte "
     "(quick) or every byte (thorough). Faults are served by the vtrace filesystem and by really "
     "truncated local files; a part of the faults is applied IN PLACE after a successful open (and "
-    "full load) of the intact product at the same path in the same process. Oracle: open_alos2 raises an Exception (a missing file: an OSError "
+    "full load) of the intact product at the same path in the same process; 'indexed' warm faults: that first open also wrote the index cache of the intact images, and the judged open says use_cache=False (with / without create_cache=True), so the index must not stand in for the damaged file. Oracle: open_alos2 raises an Exception (a missing file: an OSError "
     "subclass); if it returns, the complete tree incl. all pixel values must equal the undamaged "
     "reference (so a silently short image is a violation); never a BaseException-only type; each "
     "case runs under a 120 s watchdog. Non-trivial: the cut is strictly inside the file."
@@ -104,7 +104,9 @@ def run_case(case):
         # place: whatever the library remembers about the intact file must not hide the damage
         harness.FIXED_NAME = f"warm-{__import__('os').getpid()}-{harness.case_hash(case)[:10]}"
         with harness.Materialised(files, case["fs"]) as intact:
-            tree, err = harness.guard(harness.open_tree, intact.url, **opts)
+            # ("indexed": that open also leaves an index of the intact images in the user cache
+            # dir; the judged opens say use_cache=False, so the index must not stand in for the file)
+            tree, err = harness.guard(harness.open_tree, intact.url, **dict(opts, **({"create_cache": True} if case["warm"] == "indexed" else {})))
             if err is None:
                 _, err = harness.guard(harness.flatten, tree)
             if err is not None:
@@ -112,8 +114,17 @@ def run_case(case):
                 return [harness.disc("exception", "open of the intact product", "a tree", harness.exc_text(err))]
         what += " after a successful open of the intact product at the same path"
     try:
+        if case.get("warm") == "indexed":
+            what += " which also wrote the index cache (judged open: use_cache=False" + (", create_cache=True)" if case.get("refresh") else ")")
+            if case.get("refresh"):
+                opts["create_cache"] = True
         return _judge_damaged(case, damaged, opts, what, ref, out)
     finally:
+        if case.get("warm") == "indexed":
+            from vf.props import common
+
+            with harness.Materialised(damaged, case["fs"]) as prod:
+                common.drop_user_cache(prod.url, [roles["IMG0"], roles["IMG1"]])
         harness.FIXED_NAME = old_fixed
 
 
@@ -164,6 +175,9 @@ def enum_cases(tier):
             for fs in ("vtrace", "local"):
                 yield {"level": level, "fault": "missing", "file": role, "fs": fs}
                 yield {"level": level, "fault": "missing", "file": role, "fs": fs, "warm": True}
+            if role.startswith("IMG"):
+                for refresh in (False, True):
+                    yield {"level": level, "fault": "missing", "file": role, "fs": "local", "warm": "indexed", "refresh": refresh}
         for role in ("IMG0", "IMG1"):
             n = len(files[roles[role]])
             if tier == "quick":
@@ -185,6 +199,8 @@ def enum_cases(tier):
                     yield {"level": level, "fault": "truncate", "file": role, "cut": cut, "rpc": rpc, "fs": "vtrace" if (cut + j) % 2 else "local"}
                     if (cut in boundary and rpc in (1, 1024)) or (tier != "quick" and cut % 3 == j % 3):
                         yield {"level": level, "fault": "truncate", "file": role, "cut": cut, "rpc": rpc, "fs": "local" if (cut + j) % 2 else "vtrace", "warm": True}
+                    if (cut in boundary and rpc == 1024) or (tier != "quick" and cut % 5 == j):
+                        yield {"level": level, "fault": "truncate", "file": role, "cut": cut, "rpc": rpc, "fs": "local", "warm": "indexed", "refresh": bool((cut + j) % 2)}
         for role in ("LED", "VOL"):
             n = len(files[roles[role]])
             if tier == "quick":
@@ -203,16 +219,18 @@ def enum_cases(tier):
 
 @st.composite
 def random_cuts(draw):
-    return {
+    warm = draw(st.sampled_from([False, True, "indexed"]))
+    extra = {"refresh": draw(st.booleans())} if warm == "indexed" else {}
+    return dict(extra, **{
         "level": draw(st.sampled_from(LEVELS)),
         "fault": "truncate",
         "file": draw(st.sampled_from(["IMG0", "IMG0", "IMG1", "LED", "VOL"])),
         "cut": draw(st.integers(0, 60000)),
         "mod": True,
         "rpc": draw(st.sampled_from([1, 2, 3, N, N + 1, 1024])),
-        "fs": draw(st.sampled_from(["vtrace", "local"])),
-        "warm": draw(st.booleans()),
-    }
+        "fs": "local" if warm == "indexed" else draw(st.sampled_from(["vtrace", "local"])),
+        "warm": warm,
+    })
 
 
 def plan(tier):
@@ -225,7 +243,7 @@ def plan(tier):
 def classify(case):
     labels = [f"fault={case['fault']}", f"file={case['file'][:3]}", f"fs={case['fs']}", f"level={case['level']}"]
     if case.get("warm"):
-        labels.append("after-intact-open")
+        labels.append("after-intact-open" + ("+index" if case["warm"] == "indexed" else ""))
     if case["fault"] == "missing":
         return True, labels
     return case.get("mod") or case["cut"] > 0, labels
